@@ -477,6 +477,25 @@ def check_add(res, spec_a, spec_b, weight, label):
         problems.append(("self-modified", M.snapshot(a), snap_a))
     if M.snapshot(b) != snap_b:
         problems.append(("other-modified", M.snapshot(b), snap_b))
+    if raised is None and isinstance(r, histogram) and not problems:
+        # the sum is a histogram like any other: operands whose scale had been computed (and cached)
+        # before the addition give a sum whose own scale is that of a new histogram with its content
+        def scale_of(h):
+            try:
+                return ("ok", h.scale())
+            except Exception as e:  # noqa
+                return ("exc", type(e).__name__)
+        a2, b2 = build_hist(spec_a), build_hist(spec_b)
+        scale_of(a2), scale_of(b2)
+        try:
+            r2 = a2.add(b2) if weight is None else a2.add(b2, weight)
+            got_s = scale_of(r2)
+            want_s = scale_of(histogram(M.copy_edges(r2.edges), M.copy_bins(r2.bins)))
+            same = got_s == want_s or (got_s[0] == want_s[0] == "ok" and M.close(got_s[1], want_s[1]))
+            if not same:
+                problems.append(("scale-of-sum-after-operand-scale", got_s, want_s))
+        except Exception as e:  # noqa
+            problems.append(("exception-after-operand-scale", type(e).__name__, "a + w*b"))
     res.case(nontrivial=nontrivial, outcome=(outcome, label))
     if raised == LVE:
         res.count("add_rejected")
